@@ -298,7 +298,7 @@ func c06RunBulk(run *vfRun) *c06BulkResult {
 		return total
 	}
 	_ = os.MkdirAll(run.Env.WorkDir, 0o755)
-	const nShards, workers = 2, 3 // 7 configurations x 2 shards = 14 processes x 3 workers on 16 cores
+	const nShards, workers = 2, 3 // 8 configurations x 2 shards = 16 processes x 3 workers on 16 cores
 	type job struct{ wi, shard int }
 	var jobs []job
 	for wi := range c06WLs {
@@ -380,8 +380,16 @@ func TestVerif_C06(t *testing.T) {
 	// a run that did not see the validator keep anything, or no completed logins, has observed too little
 	musts := []string{"logins_completed", "login_starts_checked", "html_pages_parsed", "fidelity_ok", "wire_locations_compared"}
 	for _, ch := range append(append([]string{}, c06CheapChannels...), c06LoginChannels...) {
+		if c06IsCBFail(ch) {
+			musts = append(musts, "ch_"+ch, "hidden_rd_seen_"+ch) // failed callbacks: the error page with its rd field was seen
+			continue
+		}
 		musts = append(musts, "ch_"+ch, "kept_"+ch) // every channel delivered strings and showed at least one of them kept
 	}
+	for _, r := range c06FidelityRoutes {
+		musts = append(musts, "fidelity_ok["+r+"]")
+	}
+	musts = append(musts, "fidelity_prefix_sharing_uris", "fidelity_custom_prefix_uris")
 	for _, ch := range []string{"so-rd", "so-xarr", "form-rd", "page-error", "xf-so", "page-403", "cb-state"} {
 		musts = append(musts, "kept_wire:"+ch)
 	}
@@ -392,7 +400,7 @@ func TestVerif_C06(t *testing.T) {
 			t.Fail()
 		}
 	}
-	run.Finish(int64(run.Env.Pick(600000, 12000000)), run.Env.Pick(10000, 15000))
+	run.Finish(int64(run.Env.Pick(800000, 12000000)), run.Env.Pick(18000, 20000))
 }
 
 // c06RacePass: all channels under the race build for the 1-token strings, the prefixes and a sample of the known-bad list,
@@ -423,7 +431,7 @@ func c06RacePass(run *vfRun, w0 *vfWorld, interesting []string) {
 	acc := c06NewAcc()
 	var wireN, wireDiff int64
 	for wi, wl := range c06WLs {
-		if !run.Env.Thorough() && (wi+int(run.Env.Seed))%7%4 != 0 { // quick: two of the seven configurations, rotating with the seed
+		if !run.Env.Thorough() && (wi+int(run.Env.Seed))%len(c06WLs)%4 != 0 { // quick: two of the seven configurations, rotating with the seed
 			continue
 		}
 		cx, err := c06NewCtx(w0, wl)
@@ -485,6 +493,7 @@ func (cx *c06Ctx) wireCompare(a *c06Acc, in string) (n, diff int64) {
 		{"page-error", cx.H, cx.BaseA, vfGET("/oauth2/callback?error=access_denied&rd=" + esc)},
 		{"xf-so", cx.B, xb, vfGET("/oauth2/sign_out", "X-Forwarded-Proto", "https", "X-Forwarded-Host", h, "X-Forwarded-Uri", in)},
 	}
+	reqs = append(reqs, wreq{"cbfail-error", cx.A, cx.BaseA, vfGET("/oauth2/callback?error=access_denied&state=" + vfQueryEscape("Zm9yZ2Vk:"+in))})
 	if c06ValidTarget(in) {
 		reqs = append(reqs, wreq{"page-403", cx.H, cx.BaseA, vfGET(in)})
 	}
@@ -536,40 +545,53 @@ func (cx *c06Ctx) wireCompare(a *c06Acc, in string) (n, diff int64) {
 }
 
 // ---------------------------------------------------------------------------------------------------------
-// fidelity: a plain same-site path and query requested before login is where the user lands after login, byte for byte
+// fidelity: a plain same-site path and query requested before login is where the user lands after login, byte for byte.
+// URIs: the safe grammar, plus paths that merely SHARE the proxy prefix as a string ("/oauth2-docs/x", "/authors/42" with
+// --proxy-prefix=/auth): only "<prefix>/..." are the proxy's own endpoints. Instances with the default prefix, /auth and /a.
+
+var c06FidelityRoutes = []string{"start-rd", "start-rd-b64", "protected-url", "form-login", "signin-page", "x-forwarded-uri:front.test", "x-forwarded-uri:good.test"}
+
+var c06PrefixSuffixes = []string{"-docs/x", "x", "2/y?z=1", "ors/42?tab=books", "orize", "", "?x=1", ".", "_", "~", "%2Fsign_in", "%2fstart?next=x", "sign_in", "callback/x", "-"}
+
+type c06FidInst struct {
+	prefix                string
+	plain, b64, skip, rev *vfProxy // b64 only for the default prefix
+}
 
 func c06Fidelity(run *vfRun) {
 	w := vfNewWorld(run.T) // real nonce / PKCE checks, a signature per login
 	defer w.Close()
 	ht := w.File("htpasswd-fid", c06HtpasswdLine(c06User, c06Pass))
-	type inst struct {
-		name string
-		p    *vfProxy
-	}
-	var insts []inst
-	for _, c := range []struct {
-		name  string
-		flags []string
-	}{
-		{"rd-plain", []string{"--htpasswd-file=" + ht}},
-		{"rd-b64-pkce", []string{"--encode-state=true", "--code-challenge-method=S256", "--whitelist-domain=.good.test"}},
-		{"skip-button", []string{"--skip-provider-button=true"}},
-		{"reverse-proxy", []string{"--reverse-proxy=true", "--whitelist-domain=good.test"}},
-	} {
-		p, err := w.NewProxy(c.flags...)
+	mk := func(flags ...string) *vfProxy {
+		p, err := w.NewProxy(flags...)
 		if err != nil {
-			run.T.Fatalf("c06 fidelity instance %s: %v", c.name, err)
+			run.T.Fatalf("c06 fidelity instance %v: %v", flags, err)
 		}
-		insts = append(insts, inst{c.name, p})
+		return p
 	}
-	n := run.Env.Pick(300, 4000)
-	routeIdx := map[string]int{"start-rd": 0, "start-rd-b64": 1, "protected-url": 2, "form-login": 3, "x-forwarded-uri:front.test": 4, "x-forwarded-uri:good.test": 5}
-	var reported [6]int64
+	var insts []*c06FidInst
+	for _, pre := range []string{"/oauth2", "/auth", "/a"} {
+		fi := &c06FidInst{prefix: pre}
+		pf := "--proxy-prefix=" + pre
+		if pre == "/oauth2" {
+			fi.plain = mk(pf, "--htpasswd-file="+ht)
+			fi.b64 = mk(pf, "--encode-state=true", "--code-challenge-method=S256", "--whitelist-domain=.good.test")
+		} else {
+			fi.plain = mk(pf, "--encode-state=true")
+		}
+		fi.skip = mk(pf, "--skip-provider-button=true")
+		fi.rev = mk(pf, "--reverse-proxy=true", "--whitelist-domain=good.test")
+		insts = append(insts, fi)
+	}
+	n := run.Env.Pick(200, 3000)
+	routeIdx := map[string]int{}
+	for i, r := range c06FidelityRoutes {
+		routeIdx[r] = i
+	}
+	reported := make([]int64, len(c06FidelityRoutes))
 	vfParallel(n, 16, func(i int) {
-		uri := c06SafeURI(run.Env.Seed, i)
-		check := func(route string, p *vfProxy, want string, resp *vfResp, err error, reqNote string) {
-			cell := "fidelity|" + route
-			run.Eval(cell)
+		check := func(route string, p *vfProxy, uri, want string, resp *vfResp, err error, reqNote string) {
+			run.Eval("fidelity|" + route)
 			got := ""
 			if resp != nil {
 				got = resp.Location()
@@ -588,55 +610,102 @@ func c06Fidelity(run *vfRun) {
 				return
 			}
 			run.Count("fidelity_ok", 1)
+			run.Count("fidelity_ok["+route+"]", 1)
 			run.SampleEvery(2003, func() interface{} { return map[string]string{"route": route, "uri": uri, "location": got} })
 		}
+		finish := func(b *vfBrowser, p *vfProxy, start *vfResp) (*vfResp, error) {
+			if start.Code != 302 {
+				return start, fmt.Errorf("no login start (status %d)", start.Code)
+			}
+			l, err := b.continueLogin(p, vfStdIdentity, start)
+			if err != nil {
+				return nil, err
+			}
+			return b.Get(p, l.CallbackTarget(p)), nil
+		}
+		// the routes on which the proxy itself derives the target from the request (these consult the proxy prefix)
+		derived := func(fi *c06FidInst, uri string, wire bool) {
+			// protected URL, skip-provider-button
+			b := vfNewBrowser("")
+			b.Wire = wire
+			cb, err := finish(b, fi.skip, b.Get(fi.skip, uri))
+			check("protected-url", fi.skip, uri, uri, cb, err, "GET <uri> unauthenticated with --skip-provider-button -> IdP -> callback (proxy prefix "+fi.prefix+")")
+			// sign-in page: the hidden rd of the 403 page is what the "Sign in" form submits to <prefix>/start
+			b = vfNewBrowser("")
+			page := b.Get(fi.plain, uri)
+			rd, nrd := "", 0
+			for _, o := range c06Outs(page, c06NewAcc()) {
+				if o.Where == "hidden rd" {
+					nrd++
+					if nrd == 1 || o.Val != uri {
+						rd = o.Val
+					}
+				}
+			}
+			if page.Code != 403 || nrd == 0 || rd != uri {
+				check("signin-page", fi.plain, uri, uri, &vfResp{Code: page.Code, Header: map[string][]string{"Location": {rd}}}, fmt.Errorf("sign-in page (status %d) carries rd=%s in %d field(s)", page.Code, c06Quote(rd), nrd), "GET <uri> unauthenticated -> sign-in page (proxy prefix "+fi.prefix+")")
+			} else {
+				_, cb, err := b.Login(fi.plain, vfStdIdentity, rd)
+				check("signin-page", fi.plain, uri, uri, cb, err, "GET <uri> unauthenticated -> sign-in page -> its rd submitted to "+fi.prefix+"/start -> IdP -> callback")
+			}
+			// reverse-proxy mode: the URI arrives in X-Forwarded-Uri (nginx auth_request style start)
+			for _, h := range []string{"front.test", "good.test"} {
+				if h == "good.test" && fi.prefix != "/oauth2" {
+					continue
+				}
+				b = vfNewBrowser("")
+				b.Extra = [][2]string{{"X-Forwarded-Proto", "https"}, {"X-Forwarded-Host", h}, {"X-Forwarded-Uri", uri}}
+				want := uri
+				if h == "good.test" {
+					want = "https://good.test" + uri // whitelisted front host: the absolute form of the same page
+				}
+				cb, err := finish(b, fi.rev, b.Get(fi.rev, fi.prefix+"/start"))
+				check("x-forwarded-uri:"+h, fi.rev, uri, want, cb, err, "GET "+fi.prefix+"/start with X-Forwarded-Proto/Host/Uri=<uri>")
+			}
+		}
+		uri := c06SafeURI(run.Env.Seed, i)
 		wire := i%10 == 0
-		// (1) rd on /oauth2/start, plain state
+		def := insts[0]
+		// rd on <prefix>/start, plain state
 		b := vfNewBrowser("")
 		b.Wire = wire
-		_, cb, err := b.Login(insts[0].p, vfStdIdentity, uri)
-		check("start-rd", insts[0].p, uri, cb, err, "GET /oauth2/start?rd=<uri> -> IdP -> callback")
-		// (2) rd on /oauth2/start, base64 state + PKCE
+		_, cb, err := b.Login(def.plain, vfStdIdentity, uri)
+		check("start-rd", def.plain, uri, uri, cb, err, "GET /oauth2/start?rd=<uri> -> IdP -> callback")
+		// rd on /oauth2/start, base64 state + PKCE
 		b = vfNewBrowser("")
-		_, cb, err = b.Login(insts[1].p, vfStdIdentity, uri)
-		check("start-rd-b64", insts[1].p, uri, cb, err, "GET /oauth2/start?rd=<uri> (encode-state, PKCE)")
-		// (3) protected URL, skip-provider-button
-		b = vfNewBrowser("")
-		b.Wire = wire
-		r0 := b.Get(insts[2].p, uri)
-		if r0.Code == 302 {
-			l, err := b.continueLogin(insts[2].p, vfStdIdentity, r0)
-			var cb *vfResp
-			if err == nil {
-				cb = b.Get(insts[2].p, l.CallbackTarget(insts[2].p))
+		_, cb, err = b.Login(def.b64, vfStdIdentity, uri)
+		check("start-rd-b64", def.b64, uri, uri, cb, err, "GET /oauth2/start?rd=<uri> (encode-state, PKCE)")
+		// htpasswd form
+		r4 := def.plain.Do(vfNewReq("POST", "/oauth2/sign_in").WithBody("application/x-www-form-urlencoded", []byte("username="+c06User+"&password="+c06Pass+"&rd="+vfQueryEscape(uri))))
+		check("form-login", def.plain, uri, uri, r4, nil, "POST /oauth2/sign_in rd=<uri>")
+		derived(def, uri, wire)
+		// a path that shares the default prefix as a string
+		st := c06Mix(uint64(run.Env.Seed)*31 + uint64(i))
+		sfx := c06PrefixSuffixes[i%len(c06PrefixSuffixes)]
+		tail := ""
+		if st%3 == 0 && sfx != "" && !strings.Contains(sfx, "?") { // never "<prefix>/...": those are the proxy's own endpoints
+			for tail = "/."; strings.Trim(tail, "/.") == ""; { // no dot segment: outside the safe grammar
+				tail = "/" + c06SafeWord(&st, 1, 6)
 			}
-			check("protected-url", insts[2].p, uri, cb, err, "GET <uri> unauthenticated with --skip-provider-button -> IdP -> callback")
-		} else {
-			check("protected-url", insts[2].p, uri, r0, fmt.Errorf("unauthenticated request did not start a login"), "GET <uri>")
 		}
-		// (4) htpasswd form
-		r4 := insts[0].p.Do(vfNewReq("POST", "/oauth2/sign_in").WithBody("application/x-www-form-urlencoded", []byte("username="+c06User+"&password="+c06Pass+"&rd="+vfQueryEscape(uri))))
-		check("form-login", insts[0].p, uri, r4, nil, "POST /oauth2/sign_in rd=<uri>")
-		// (5) reverse-proxy mode: the URI arrives in X-Forwarded-Uri (nginx auth_request style start)
-		for _, h := range []string{"front.test", "good.test"} {
+		run.Count("fidelity_prefix_sharing_uris", 1)
+		derived(def, def.prefix+sfx+tail, false)
+		if i%3 == 0 {
 			b = vfNewBrowser("")
-			b.Extra = [][2]string{{"X-Forwarded-Proto", "https"}, {"X-Forwarded-Host", h}, {"X-Forwarded-Uri", uri}}
-			r5 := b.Get(insts[3].p, "/oauth2/start")
-			want := uri
-			if h == "good.test" {
-				want = "https://good.test" + uri // whitelisted front host: the absolute form of the same page
-			}
-			if r5.Code == 302 {
-				l, err := b.continueLogin(insts[3].p, vfStdIdentity, r5)
-				var cb *vfResp
-				if err == nil {
-					cb = b.Get(insts[3].p, l.CallbackTarget(insts[3].p))
-				}
-				check("x-forwarded-uri:"+h, insts[3].p, want, cb, err, "GET /oauth2/start with X-Forwarded-Proto/Host/Uri")
-			} else {
-				check("x-forwarded-uri:"+h, insts[3].p, want, r5, fmt.Errorf("no login start"), "GET /oauth2/start with X-Forwarded-*")
-			}
+			_, cb, err = b.Login(def.plain, vfStdIdentity, def.prefix+sfx+tail)
+			check("start-rd", def.plain, def.prefix+sfx+tail, def.prefix+sfx+tail, cb, err, "GET /oauth2/start?rd=<uri> -> IdP -> callback")
 		}
+		// a custom proxy prefix (/auth, /a): a safe URI (many start with the letters of the prefix) and a prefix-sharing one
+		ci := insts[1+i%2]
+		first := strings.SplitN(strings.SplitN(uri, "?", 2)[0], "/", 3)[1]
+		if first != strings.TrimPrefix(ci.prefix, "/") { // "<prefix>/..." are the proxy's own endpoints
+			run.Count("fidelity_custom_prefix_uris", 1)
+			derived(ci, uri, false)
+		}
+		sfx = c06PrefixSuffixes[(i/2)%len(c06PrefixSuffixes)]
+		run.Count("fidelity_prefix_sharing_uris", 1)
+		run.Count("fidelity_custom_prefix_uris", 1)
+		derived(ci, ci.prefix+sfx, false)
 	})
 }
 
